@@ -222,7 +222,7 @@ def next (s : State) : Act → Option State
     match s.adders.find? (·.1 = call) with
     | none => none
     | some (_, key) =>
-      if locked s then none
+      if locked s || (getLst s.lsts call).isSome then none     -- (call ids are fresh: one listener per Listen call)
       else some (emit { s with adders := s.adders.filter (·.1 ≠ call),
                                entries := s.entries ++ [(key, call)],
                                lsts := s.lsts ++ [⟨call, key, none, false⟩] } (.listen call 0))
